@@ -34,6 +34,10 @@ FUNC_OPTIONS = [
     ("F_string_len_trim", False),         # generate.arg_to_buffer: node.options
     ("return_scalar_pointer", "scalar"),  # generate.check_return_pointer: node.options
     ("F_assumed_rank_max", 2),            # generate.process_assumed_rank: node.options
+    ("F_CFI", True),                      # generate.define_function_suffix: function.options.F_CFI
+    ("F_return_fortran_pointer", False),  # generate / wrapf: node.options
+    ("C_var_len_template", "LEN{c_var}"),    # generate.arg_to_buffer: options of the function
+    ("C_var_trim_template", "TRIM{c_var}"),
     ("F_line_length", None),              # placeholder, never used (container-level) - filtered below
 ]
 FUNC_OPTIONS = [x for x in FUNC_OPTIONS if x[1] is not None]
@@ -45,6 +49,10 @@ FUNC_FORMATS = [
     ("C_local", "LOC_"),         # statements templates via fmt
     ("c_temp", "TMP_"),
 ]
+
+STRING_KEYS = ("F_CFI", "F_create_bufferify_function", "F_string_len_trim", "C_var_len_template", "C_var_trim_template",
+               "C_bufferify_suffix")
+POINTER_KEYS = ("return_scalar_pointer", "F_return_fortran_pointer", "F_assumed_rank_max")
 
 CLI_OPTIONS = [
     ("debug", True), ("debug", False), ("doxygen", False), ("F_force_wrapper", True),
@@ -171,13 +179,24 @@ def attrs_to_yaml(attr_text):
     return d
 
 
+def with_name_attrs(model):
+    """The function attribute +name(...) (input.rst: 'Name of the method. Useful for constructor and
+    destructor methods') added to every other plain function, method and constructor."""
+    m = copy.deepcopy(model)
+    k = 0
+    for path, f in smallgen.walk_functions(m):
+        k += 1
+        if f.get("generic") or f.get("template") or f.get("overload") or k % 2 or "+name" in (f.get("rattrs") or ""):
+            continue
+        f["rattrs"] = ((f.get("rattrs") or "") + " +name(renamed%d)" % k).strip()
+    return m
+
+
 def move_attrs(model):
     """Model with every inline attribute moved to attrs:/fattrs:.  Returns (model, count)."""
     m = copy.deepcopy(model)
     n = 0
     for path, f in smallgen.walk_functions(m):
-        if f.get("generic") or f.get("template"):
-            continue
         attrs = {}
         for p in f["params"]:
             if p["attrs"]:
@@ -301,13 +320,15 @@ def _job(job):
     elif kind == "d":
         doc = meta.load(job["yaml"])
         B = copy.deepcopy(doc)
-        lst = B["declarations"]
+        cpath = job.get("cpath")
+        lst = B["declarations"] if cpath is None else meta.get_node(B, tuple(cpath))["declarations"]
         i, j = job["span"]
         blk = {"block": True, "declarations": lst[i:j]}
         lst[i:j] = [blk]
         ra = _run(meta.dump(doc), job["argv"], name)
         rb = _run(meta.dump(B), job["argv"], name)
-        compare(ra, rb, "declarations %d..%d wrapped in an empty block" % (i, j), "d:block")
+        compare(ra, rb, "declarations %d..%d of %s wrapped in an empty block" % (
+            i, j, "the library" if cpath is None else meta.get_node(doc, tuple(cpath))["decl"]), "d:block")
         out["nontrivial"].append(("d", name, i, j))
         out["sample"] = dict(relation="d", lib=name, span=[i, j])
     elif kind == "e":
@@ -360,7 +381,14 @@ def a_jobs(draw, name, text, argv):
                      container=list(c) if c is not None else None))
     fns = functions_under(doc, None)
     if len(fns) >= 2:
-        f = draw(st.sampled_from(fns))
+        # prefer a function the setting can act on (string / pointer settings on string / pointer functions)
+        if key in STRING_KEYS:
+            pref = [p for p in fns if re.search(r"char|string", meta.get_node(doc, p)["decl"])]
+        elif key in POINTER_KEYS:
+            pref = [p for p in fns if "*" in meta.get_node(doc, p)["decl"]]
+        else:
+            pref = []
+        f = draw(st.sampled_from(pref if pref and draw(st.integers(0, 3)) else fns))
         jobs.append(dict(kind="a2", name=name, yaml=text, argv=argv, what=what, key=key, value=value,
                          f=list(f)))
     return jobs
@@ -386,9 +414,17 @@ def run(ctx):
     for i, m in enumerate(models):
         text = smallgen.to_yaml(m)
         name = m["library"]
-        for js in smallgen.sample(a_jobs(name, text, []), ctx.seed * 31 + i, 2 if quick else 6):
+        for js in smallgen.sample(a_jobs(name, text, []), ctx.seed * 31 + i, 3 if quick else 10):
             jobs.extend(js)
-        jobs.append(dict(kind="b", name=name, model=m))
+        # systematic part of a2: a string-related option on the first of several string functions
+        doc0 = meta.load(text)
+        sfun = [p for p in functions_under(doc0, None) if re.search(r"char|string", meta.get_node(doc0, p)["decl"])]
+        if len(sfun) >= 2:
+            for key, value in FUNC_OPTIONS:
+                if key in ("F_CFI", "F_create_bufferify_function", "F_string_len_trim"):
+                    jobs.append(dict(kind="a2", name=name, yaml=text, argv=[], what="option", key=key, value=value,
+                                     f=list(sfun[0])))
+        jobs.append(dict(kind="b", name=name, model=with_name_attrs(m)))
         # c
         for opts_lang in smallgen.sample(st.tuples(st.lists(st.sampled_from(CLI_OPTIONS), min_size=1, max_size=3,
                                                             unique_by=lambda kv: kv[0]),
@@ -402,6 +438,14 @@ def run(ctx):
         for span in smallgen.sample(st.integers(0, nd - 1).flatmap(lambda a: st.tuples(st.just(a), st.integers(a + 1, nd))),
                                     ctx.seed * 41 + i, 1 if quick else 3):
             jobs.append(dict(kind="d", name=name, yaml=text, argv=[], span=list(span)))
+        # ... and inside a namespace or class (ast.BlockNode: "Blocks can be added to a LibraryNode,
+        # NamespaceNode or ClassNode")
+        for cpath in [p for p, n, _l in meta.walk_decls(doc0) if meta.decl_kind(n) in ("class", "namespace")
+                      and n.get("declarations")][:2 if quick else 6]:
+            nn = len(meta.get_node(doc0, cpath)["declarations"])
+            for span in smallgen.sample(st.integers(0, nn - 1).flatmap(lambda a: st.tuples(st.just(a), st.integers(a + 1, nn))),
+                                        ctx.seed * 43 + i, 1 if quick else 2):
+                jobs.append(dict(kind="d", name=name, yaml=text, argv=[], span=list(span), cpath=list(cpath)))
     import random  # deterministic corpus selection from VERIF_SEED
     rnd = random.Random(ctx.seed)
     ents = [e for e in corpus.entries() if not e.cmdline]
